@@ -255,7 +255,8 @@ def build(spec, col_objs=None, extra=None):
     return type(spec['cls'], (so.SQLObject,), body)
 
 
-REUSE_MODES = ['shared', 'versioned-shared', 'subclass', 'versioned-subclass', 'readd', 'versioned-readd']
+REUSE_MODES = ['shared', 'versioned-shared', 'subclass', 'versioned-subclass', 'readd', 'versioned-readd',
+               'subclass+oldmeta', 'subclass+newmeta', 'subclass+oldmeta+owncol', 'subclass+owncol', 'versioned-subclass+oldmeta']
 
 
 def build_reused(ctx, spec, mode):
@@ -273,14 +274,27 @@ def build_reused(ctx, spec, mode):
     except Exception as e:
         ctx.count('reuse-rejected:%s:%s' % (mode, type(e).__name__))
         return None
-    kind = mode.split('-')[-1]
+    kind = 'subclass' if 'subclass' in mode else mode.split('-')[-1]
     try:
         if kind == 'shared':
             spec2 = dict(spec, cls=sqlo.uniq('C14Reuse2'))
             return spec2, build(spec2, col_objs)
         if kind == 'subclass':
-            cls2 = type(sqlo.uniq('C14Reuse2Sub'), (cls1,), {})
-            spec2 = dict(spec, cls=cls2.__name__, table=cls2.sqlmeta.table, idName=cls2.sqlmeta.idName, indexes=[])
+            # a plain Python subclass: no sqlmeta of its own / an old-style inner `class sqlmeta:` / one derived from the
+            # parent's; optionally a column of its own.  Its table must carry the parent's columns, id name, id type, style.
+            name2 = sqlo.uniq('C14Reuse2Sub')
+            body2, cols2, table2 = {}, list(spec['cols']), None
+            if 'oldmeta' in mode or 'newmeta' in mode:
+                table2 = 'sub_tbl_' + name2.lower()
+                body2['sqlmeta'] = type('sqlmeta', (cls1.sqlmeta,) if 'newmeta' in mode else (), {'table': table2})
+            if 'owncol' in mode:
+                own = {'name': 'subOwnZq', 'dbName': None, 'nn': True, 'uq': None, 'alt': False, 'dsql': None, 'default': 3,
+                       'kind': ('i', 'int', 0, False, False)}
+                body2[own['name']] = col_object(own, spec)
+                cols2.append(own)
+            cls2 = type(name2, (cls1,), body2)
+            spec2 = dict(spec, cls=name2, cols=cols2, table=table2 or cls2.sqlmeta.table, idName=cls1.sqlmeta.idName, indexes=[],
+                         expect_idName=cls1.sqlmeta.idName, expect_style=type(cls1.sqlmeta.style).__name__)
             return spec2, cls2
         # readd: every column in turn leaves the class and comes back (same definition object), no schema change
         for c in spec['cols']:
@@ -1325,6 +1339,86 @@ def scenario_styles(ctx):
             ctx.oracle_fail('C14:style:raises', 'name mapping of %r raises %s: %s' % (d, type(e).__name__, e), case)
 
 
+def scenario_conn_style(ctx):
+    """connections built with a style of their own x classes that declare a style explicitly / leave it to the connection:
+    column names, foreign-key names and BOTH ends of RelatedJoin / MultipleJoin must follow one style per class — the
+    class's own if declared, else the connection's — so that the two ends of a join agree on the link columns."""
+    import sqlobject as so
+    from sqlobject import styles
+    mk = {'u': styles.MixedCaseUnderscoreStyle, 'm': styles.MixedCaseStyle, 'p': styles.Style}
+    for conn_style in (None, 'm', 'u', 'p'):
+        for cls_style in (None, 'u', 'm', 'p'):
+            for long_id in (False, True):
+                if conn_style is None and cls_style is None and long_id:
+                    continue
+                kw = {} if conn_style is None else {'style': mk[conn_style](longID=long_id)}
+                conn = sqlo.mem_conn(**kw)
+                eff = cls_style or conn_style or 'u'
+                est = mk[eff](longID=long_id) if (cls_style or conn_style) else mk['u']()
+                case = {'scenario': 'conn-style', 'connection_style': conn_style, 'class_style': cls_style, 'longID': long_id}
+                a_name, b_name, c_name = sqlo.uniq('C14StyAuthor'), sqlo.uniq('C14StyBookItem'), sqlo.uniq('C14StyNoteLine')
+
+                def meta():
+                    return type('sqlmeta', (), {'style': mk[cls_style](longID=long_id)} if cls_style else {})
+                try:
+                    A = type(a_name, (so.SQLObject,), {'_connection': conn, 'fullName': so.StringCol(default=None), 'sqlmeta': meta(),
+                                                       'books': so.RelatedJoin(b_name), 'notes': so.MultipleJoin(c_name)})
+                    B = type(b_name, (so.SQLObject,), {'_connection': conn, 'pageCount': so.IntCol(default=None), 'sqlmeta': meta(),
+                                                       'authors': so.RelatedJoin(a_name)})
+                    Cn = type(c_name, (so.SQLObject,), {'_connection': conn, 'bodyText': so.StringCol(default=None), 'sqlmeta': meta(),
+                                                        a_name[0].lower() + a_name[1:]: so.ForeignKey(a_name, default=None)})
+                    # (1) names follow the effective style, computed here from the declaration alone
+                    tA, tB = est.pythonClassToDBTable(a_name), est.pythonClassToDBTable(b_name)
+                    want = {'A.table': tA, 'A.fullName': est.pythonAttrToDBColumn('fullName'),
+                            'A.id': est.idForTable(tA), 'C.authorID': est.pythonAttrToDBColumn(a_name[0].lower() + a_name[1:] + 'ID'),
+                            'A.books.joinColumn': est.tableReference(tA), 'A.books.otherColumn': est.tableReference(tB),
+                            'B.authors.joinColumn': est.tableReference(tB), 'B.authors.otherColumn': est.tableReference(tA),
+                            'A.notes.joinColumn': est.tableReference(tA)}
+                    ja = [j for j in A.sqlmeta.joins if j.joinMethodName == 'books'][0]
+                    jn = [j for j in A.sqlmeta.joins if j.joinMethodName == 'notes'][0]
+                    jb = B.sqlmeta.joins[0]
+                    got = {'A.table': A.sqlmeta.table, 'A.fullName': A.sqlmeta.columns['fullName'].dbName, 'A.id': A.sqlmeta.idName,
+                           'C.authorID': Cn.sqlmeta.columns[a_name[0].lower() + a_name[1:] + 'ID'].dbName,
+                           'A.books.joinColumn': ja.joinColumn, 'A.books.otherColumn': ja.otherColumn,
+                           'B.authors.joinColumn': jb.joinColumn, 'B.authors.otherColumn': jb.otherColumn,
+                           'A.notes.joinColumn': jn.joinColumn}
+                    if (ja.joinColumn, ja.otherColumn) != (jb.otherColumn, jb.joinColumn):
+                        ctx.oracle_fail('C14:join:link-columns-disagree',
+                                        'connection style %s, class style %s: the two ends of the RelatedJoin name the link columns %r and %r'
+                                        % (conn_style, cls_style, (ja.joinColumn, ja.otherColumn), (jb.otherColumn, jb.joinColumn)), case)
+                    elif got != want:
+                        diff = {k: (got[k], want[k]) for k in want if got[k] != want[k]}
+                        ctx.oracle_fail('C14:style:effective-style', 'names (got, expected from the declared style): %r' % (diff,), case)
+                    # (2) executed: both ends usable, the one-to-many end finds its rows
+                    for c in (A, B, Cn):
+                        c.createTable()
+                    link = conn.queryAll('PRAGMA table_info(%s)' % ja.intermediateTable)
+                    if sorted(r[1] for r in link) != sorted([ja.joinColumn, ja.otherColumn]):
+                        ctx.oracle_fail('C14:join:link-columns', 'link table columns %r' % ([r[1] for r in link],), case)
+                    a, b = A(fullName='x'), B(pageCount=3)
+                    getattr(a, 'add' + b_name)(b)
+                    b2 = B(pageCount=4)
+                    getattr(b2, 'add' + a_name)(a)
+                    n = Cn(bodyText='t', **{a_name[0].lower() + a_name[1:]: a})
+                    conn.cache.clear()
+                    a = A.get(a.id)
+                    # (the base Style names a foreign key `xID` but a table reference `x_id`: its one-to-many default never matched)
+                    notes = [x.id for x in a.notes] if eff != 'p' else [n.id]
+                    seen = (sorted(x.id for x in a.books), sorted(x.id for x in B.get(b.id).authors), notes)
+                    if seen != (sorted([b.id, b2.id]), [a.id], [n.id]):
+                        ctx.oracle_fail('C14:join:link-unusable', 'rows linked from both ends / one-to-many rows are not all seen: %r' % (seen,), case)
+                    ctx.count('conn-style-scenario')
+                except Exception as e:
+                    ctx.oracle_fail('C14:join:conn-style-raises',
+                                    'connection style %s, class style %s (longID %s): joins between the classes raise %s: %s'
+                                    % (conn_style, cls_style, long_id, sqlo.exc_name(e), str(e)[:100]), case)
+                finally:
+                    try:
+                        conn.close()
+                    except Exception:
+                        pass
+
+
 def scenario_evolution(ctx):
     import sqlobject as so
     conn = env()['conns']['sqlite']
@@ -1579,6 +1673,22 @@ def run_spec(ctx, spec, micro, mx, sample=False, reuse=None):
     except Exception as e:
         ctx.count('declaration-rejected:%s' % type(e).__name__)
         return
+    got_cols = [c.origName for c in cls.sqlmeta.columnList]
+    problems = []
+    if got_cols != [c['name'] for c in spec['cols']]:
+        problems.append('columns of the class %r, declared (own and inherited) %r' % (got_cols, [c['name'] for c in spec['cols']]))
+    if cls.sqlmeta.idType is not (str if spec['idStr'] else int):
+        problems.append('idType %r, declared %s' % (cls.sqlmeta.idType, 'str' if spec['idStr'] else 'int'))
+    if spec.get('expect_idName') and cls.sqlmeta.idName != spec['expect_idName']:
+        problems.append('idName %r, declared %r' % (cls.sqlmeta.idName, spec['expect_idName']))
+    if spec.get('expect_style') and type(cls.sqlmeta.style).__name__ != spec['expect_style']:
+        problems.append('style %s, declared %s' % (type(cls.sqlmeta.style).__name__, spec['expect_style']))
+    if spec['table'] is not None and cls.sqlmeta.table != spec['table']:
+        problems.append('table %r, declared %r' % (cls.sqlmeta.table, spec['table']))
+    if problems:
+        ctx.oracle_fail('C14:class:declaration-not-in-sqlmeta', 'the class does not carry its declaration (%s): %s'
+                        % (spec.get('reuse') or 'direct', '; '.join(problems)), {'spec': strip(spec), 'reuse': spec.get('reuse')})
+        return
     dbnames = [cls.sqlmeta.idName] + [c.dbName for c in cls.sqlmeta.columnList]
     if len(set(n.lower() for n in dbnames)) != len(dbnames):
         ctx.count('declaration-skipped:duplicate-db-name')
@@ -1658,6 +1768,7 @@ def run(ctx):
         run_spec(ctx, spec, micro=bool(i % 2), mx=bool(i % 3 == 0), reuse=REUSE_MODES[i % len(REUSE_MODES)])
     scenario_joins(ctx)
     scenario_styles(ctx)
+    scenario_conn_style(ctx)
     scenario_if_flags(ctx)
     scenario_evolution(ctx)
     scenario_evolution_ids(ctx)
@@ -1730,7 +1841,9 @@ def replay(case):
     if 'scenario' in case:
         from vlib.framework import prng
         c.rng = prng(0)
-        if case['scenario'] == 'styles':
+        if case['scenario'] == 'conn-style':
+            scenario_conn_style(c)
+        elif case['scenario'] == 'styles':
             scenario_styles(c)
         elif case['scenario'] == 'if-flags':
             scenario_if_flags(c)
@@ -1758,6 +1871,12 @@ def replay(case):
             t.pop('id_real', None)
         reuse = case.get('reuse') or spec.pop('reuse', None)
         spec.pop('reuse', None)
+        spec.pop('expect_idName', None)
+        spec.pop('expect_style', None)
+        if reuse and 'owncol' in reuse:
+            spec['cols'] = [cc for cc in spec['cols'] if cc['name'] != 'subOwnZq']
+        if reuse and 'subclass' in reuse:
+            spec['idName'] = case.get('parent_idName', None) if spec.get('idName') in (None, 'id') else spec['idName']
         if reuse and spec.get('table') and '.' not in spec['table'] and not case.get('keep_table'):
             spec['table'] = None
         run_spec(c, spec, False, False, reuse=reuse)
